@@ -19,6 +19,18 @@ Theorem C02_find : forall cfg, reg_ok (reg cfg) = true -> (1 <= max_depth cfg)%n
 Proof. exact find_well_typed. Qed.
 Print Assumptions C02_find.
 
+(* ... and since compile() only returns well-typed queries (C05_sound), for EVERY text that compiles: what
+   env.find(text, value) returns is the RFC nodelist of the compiled query - filters, functions and all *)
+From JP Require Import Model.Api Proofs.ParseTyped.
+Theorem C02_find_compiled : forall cfg, reg_ok (reg cfg) = true -> (1 <= max_depth cfg)%nat ->
+  forall text q v, m_compile cfg text = Ok q -> good cfg v ->
+  m_env_find cfg text v = Ok (sem (reg cfg) (rx cfg) q v).
+Proof.
+  intros cfg Hr HN text q v Ec Hg. unfold m_env_find. rewrite Ec. cbn [bind].
+  apply find_well_typed; try assumption. exact (proj1 (compile_typed cfg text q Ec)).
+Qed.
+Print Assumptions C02_find_compiled.
+
 (* the truth value the implementation derives from any well-typed logical expression is the RFC's *)
 Theorem C02_truthy : forall cfg, reg_ok (reg cfg) = true -> (1 <= max_depth cfg)%nat ->
   forall e root cur, wt_expr (reg cfg) TLogical e = true -> good cfg root -> good cfg cur ->
